@@ -117,7 +117,7 @@ func cmdVerify(args []string) {
 			bad++
 			fmt.Printf("   %-9s %s [%s] %s\n      %s\n      %s\n", strings.ToUpper(r.Status), r.Name, r.Result, r.Pos, r.Text, r.SMT2)
 			for k, v := range r.Model {
-				fmt.Printf("      %s = %s\n", k, v)
+				fmt.Printf("      %s = %s\n", k, truncate(strings.Join(strings.Fields(v), " "), 160))
 			}
 		}
 		fmt.Printf("== %s: %d/%d obligations ok\n", fi.Key, ok, len(rs))
